@@ -294,6 +294,8 @@ func runC05(c *vkit.Collector, rng *vkit.Rng, budget int) {
 		}
 		predicateSafety(c, rng, tr, 24*mini(budget, 4))
 	}
+	latticeFamily(c, rng, budget)
+	grazeFamily(c, rng, budget)
 	synthetic(c, rng, budget)
 	// heavy cases: 8 shards evaluate in parallel; deal the cases out by decreasing size so that the shards are balanced
 	const shards = 8
